@@ -199,6 +199,11 @@ structure ClientSettings where
   version : Option String
   /-- the reader is in the middle of writing a batch-rejection to a child that does not read -/
   readerWriting : Bool
+  /-- requests still registered through the per-request stream API (`new_request_stream`), whatever the state of
+  their receive ends -/
+  pendingStreams : Nat := 0
+  /-- the stdout reader task has already ended (a line that is not UTF-8, an error while routing) -/
+  readerEnded : Bool := false
   deriving DecidableEq, Repr
 
 def leaveWith (_s : ClientSettings) (d : Design) (os : OS) (p : ExitPath) (c : ChildSpec) (l : Load) : Option Trace :=
